@@ -237,7 +237,7 @@ def explore(ctx, res):
     diverged = None
     h = os.path.join(core.BUILD, "verifh")
     for backend in BACKENDS:
-        seqs = [gen_sequence(rng.fork(f"{backend}{i}"), i % 2 == 0, backend.startswith("mem"), races=(i % 20 in (1, 2))) for i in range(n)]
+        seqs = [gen_sequence(rng.fork(f"{backend}{i}"), i % 2 == 0, backend.startswith("mem"), races=(i % (20 if tier == "quick" else 100) in (1, 2))) for i in range(n)]
         lines = [l for s in seqs for l in s]
         impl, model = run_chain(backend, lines, ctx["model_ok"])
         total += len(lines)
